@@ -798,8 +798,205 @@ func runRecord(path string, seed int64, n int, sum *tl.Summary) {
 	sum.Rule = "seeded random and boundary inputs inside the TLC-exact domain (all products < 2^31), one event per call of the real function; distinct = distinct (function, branch-shape) classes"
 }
 
+
+// ------------------------------------------------------------------ mode recordbig (V, mainnet magnitudes)
+
+// limbs renders a non-negative number as base-10000 digits, least significant first (BigNat.tla).
+func limbs(v *big.Int) []int64 {
+	out := []int64{}
+	x := new(big.Int).Set(v)
+	base := big.NewInt(10000)
+	m := new(big.Int)
+	for x.Sign() > 0 {
+		x.DivMod(x, base, m)
+		out = append(out, m.Int64())
+	}
+	return out
+}
+
+func ub(v uint64) *big.Int { return new(big.Int).SetUint64(v) }
+
+func (g *gen) bigLimit() uint64 {
+	edges := []uint64{5000, 5001, 8_000_000, 30_000_000, 36_000_000, 45_000_000, 60_000_000, 100_000_000, 1 << 32, 1<<32 + 1, 1 << 40, 1 << 62, 1<<63 - 1, 1<<63 - 2}
+	if g.r.Intn(2) == 0 {
+		return edges[g.r.Intn(len(edges))]
+	}
+	return 5000 + g.r.Uint64()>>uint(1+g.r.Intn(50))
+}
+
+func (g *gen) bigFee() *big.Int {
+	switch g.r.Intn(8) {
+	case 0:
+		return big.NewInt(int64(g.r.Intn(20)))
+	case 1:
+		return new(big.Int).Lsh(big.NewInt(1), uint(g.r.Intn(256)))
+	case 2:
+		return new(big.Int).Sub(new(big.Int).Lsh(big.NewInt(1), uint(1+g.r.Intn(255))), big.NewInt(1))
+	case 3:
+		return new(big.Int).Mul(big.NewInt(1_000_000_000), big.NewInt(1+int64(g.r.Intn(500)))) // 1..500 gwei
+	default:
+		return new(big.Int).Rand(g.r, new(big.Int).Lsh(big.NewInt(1), uint(8+g.r.Intn(120))))
+	}
+}
+
+func parentBig(london bool, limit, used uint64, base *big.Int) *types.Header {
+	h := &types.Header{GasLimit: limit, GasUsed: used}
+	if london {
+		h.Number = big.NewInt(londonAt + 7)
+		h.BaseFee = new(big.Int).Set(base)
+	} else {
+		h.Number = big.NewInt(londonAt - 1)
+	}
+	return h
+}
+
+func (g *gen) bigBaseFeeInputs() (london bool, limit, used uint64, base *big.Int) {
+	london = g.r.Intn(10) != 0
+	limit = g.bigLimit()
+	t := limit / 2
+	switch g.r.Intn(10) {
+	case 0:
+		used = 0
+	case 1:
+		used = t
+	case 2:
+		used = t + 1
+	case 3:
+		used = t - 1
+	case 4:
+		used = limit
+	case 5:
+		used = limit - 1
+	default:
+		used = g.r.Uint64() % (limit + 1)
+	}
+	base = g.bigFee()
+	return
+}
+
+var eraNames = []string{"cancun", "prague", "osaka", "bpo1", "bpo2"}
+
+// eraTime returns a block time inside the named mainnet fork era (from params.MainnetChainConfig).
+func (g *gen) eraTime(era string) uint64 {
+	c := params.MainnetChainConfig
+	starts := map[string]*uint64{"cancun": c.CancunTime, "prague": c.PragueTime, "osaka": c.OsakaTime, "bpo1": c.BPO1Time, "bpo2": c.BPO2Time}
+	ends := map[string]*uint64{"cancun": c.PragueTime, "prague": c.OsakaTime, "osaka": c.BPO1Time, "bpo1": c.BPO2Time, "bpo2": nil}
+	s := *starts[era]
+	if e := ends[era]; e != nil {
+		switch g.r.Intn(3) {
+		case 0:
+			return s
+		case 1:
+			return *e - 1
+		}
+		return s + g.r.Uint64()%(*e-s)
+	}
+	return s + uint64(g.r.Intn(100000))
+}
+
+func runRecordBig(path string, seed int64, n, nblob int, sum *tl.Summary) {
+	g := &gen{r: tl.Rand(seed), tr: tl.NewTrace(path), sum: sum, key: map[string]bool{}}
+	defer g.tr.Close()
+	for i := 0; i < n; i++ {
+		london, limit, used, base := g.bigBaseFeeInputs()
+		out := eip1559.CalcBaseFee(cfg1559(), parentBig(london, limit, used, base))
+		g.emit(tl.M{"fn": "bigbasefee", "london": london, "pLimit": limbs(ub(limit)), "pUsed": limbs(ub(used)), "pBase": limbs(base), "out": limbs(out)},
+			fmt.Sprint(london, used == limit/2, used > limit/2, base.BitLen()/32, out.Cmp(base)))
+		// header verification around the expected value
+		london, limit, used, base = g.bigBaseFeeInputs()
+		p := parentBig(london, limit, used, base)
+		cand := eip1559.CalcBaseFee(cfg1559(), p) // candidate header value, not an oracle
+		adj := limit
+		if !london {
+			adj = limit * 2
+		}
+		if adj > 1<<63-1 || limit > 1<<62 {
+			adj, limit = 60_000_000, 60_000_000
+			if !london {
+				limit = 30_000_000
+			}
+			p = parentBig(london, limit, used%(limit+1), base)
+			used = used % (limit + 1)
+			cand = eip1559.CalcBaseFee(cfg1559(), p)
+		}
+		d := adj / 1024
+		hLimit := []uint64{adj, adj, adj, adj + d - 1, adj + d, adj - d + 1, adj - d, adj + 1}[g.r.Intn(8)]
+		hBase := new(big.Int).Set(cand)
+		hb := any(nil)
+		switch g.r.Intn(8) {
+		case 0:
+			hBase.Add(hBase, big.NewInt(1))
+		case 1:
+			if hBase.Sign() > 0 {
+				hBase.Sub(hBase, big.NewInt(1))
+			}
+		case 2:
+			hBase = new(big.Int).Set(base)
+		case 3:
+			hBase = nil
+		}
+		h := &types.Header{Number: new(big.Int).Add(p.Number, common.Big1), GasLimit: hLimit, BaseFee: hBase}
+		ok := eip1559.VerifyEIP1559Header(cfg1559(), p, h) == nil
+		if hBase == nil {
+			hb = []int64{-1}
+		} else {
+			hb = limbs(hBase)
+		}
+		g.emit(tl.M{"fn": "bigverify1559", "london": london, "pLimit": limbs(ub(limit)), "pUsed": limbs(ub(used)), "pBase": limbs(base),
+			"hLimit": limbs(ub(hLimit)), "hBase": hb, "ok": ok}, fmt.Sprint(london, ok, hBase == nil, hLimit == adj))
+		// gas limit rule alone, up to 2^63-1
+		pl := g.bigLimit()
+		if g.r.Intn(5) == 0 {
+			pl = uint64(g.r.Intn(12000))
+		}
+		dd := pl / 1024
+		cands := []uint64{pl, pl + dd, pl + dd - 1, pl - dd, pl - dd + 1, pl + 1, 5000, 4999}
+		hl := cands[g.r.Intn(len(cands))]
+		if hl > 1<<63-1 {
+			hl = 1<<63 - 1
+		}
+		okg := misc.VerifyGaslimit(pl, hl) == nil
+		g.emit(tl.M{"fn": "biggaslimit", "pLimit": limbs(ub(pl)), "hLimit": limbs(ub(hl)), "ok": okg}, fmt.Sprint(okg, hl < pl, hl == pl, pl > 1<<40))
+	}
+	for i := 0; i < nblob; i++ {
+		era := eraNames[g.r.Intn(len(eraNames))]
+		time := g.eraTime(era)
+		frac := map[string]uint64{"cancun": 3338477, "prague": 5007716, "osaka": 5007716, "bpo1": 8346193, "bpo2": 11684671}[era] // only to size the inputs
+		exp := []uint64{0, 1, 2, 5, 10, 20, 30}[g.r.Intn(7)]
+		if g.r.Intn(6) == 0 {
+			exp = 40 + uint64(g.r.Intn(20))
+		}
+		excess := exp*frac + g.r.Uint64()%frac
+		if g.r.Intn(8) == 0 {
+			excess = uint64(g.r.Intn(30)) * 131072
+		}
+		hdr := &types.Header{Number: big.NewInt(5), Time: time, ExcessBlobGas: u64(excess)}
+		fee := eip4844.CalcBlobFee(params.MainnetChainConfig, hdr)
+		g.emit(tl.M{"fn": "bigblobfee", "era": era, "excess": limbs(ub(excess)), "out": limbs(fee)}, fmt.Sprint(era, exp))
+		// excess update on the mainnet configuration
+		bc := map[string][2]uint64{"cancun": {3, 6}, "prague": {6, 9}, "osaka": {6, 9}, "bpo1": {10, 15}, "bpo2": {14, 21}}[era] // input sizing only
+		usedBlobs := []uint64{0, 1, bc[0] - 1, bc[0], bc[0] + 1, bc[1] - 1, bc[1]}[g.r.Intn(7)]
+		pUsed := usedBlobs * 131072
+		// base fees around the EIP-7918 threshold BLOB_BASE_COST * base = GAS_PER_BLOB * blobfee
+		thr := new(big.Int).Mul(fee, big.NewInt(16))
+		pBase := []*big.Int{new(big.Int).Set(thr), new(big.Int).Add(thr, big.NewInt(1)), new(big.Int).Sub(thr, big.NewInt(1)), big.NewInt(1_000_000_000),
+			big.NewInt(7), g.bigFee()}[g.r.Intn(6)]
+		if pBase.Sign() < 0 {
+			pBase = new(big.Int)
+		}
+		parent := &types.Header{Number: big.NewInt(5), BaseFee: pBase, ExcessBlobGas: u64(excess), BlobGasUsed: u64(pUsed)}
+		out := eip4844.CalcExcessBlobGas(params.MainnetChainConfig, parent, time)
+		g.emit(tl.M{"fn": "bigexcess", "era": era, "pExcess": limbs(ub(excess)), "pUsed": limbs(ub(pUsed)), "pBase": limbs(pBase), "out": limbs(ub(out))},
+			fmt.Sprint(era, out == 0, out > excess, pBase.Cmp(thr)))
+	}
+	sum.Steps = g.tr.N
+	sum.Traces = 1
+	sum.Rule = "seeded random and boundary inputs at mainnet magnitudes (gas limits to 2^63-1, base fees to 2^256, blob fee exponents to 60, params.MainnetChainConfig fork eras); distinct = distinct (function, branch-shape) classes"
+}
+
 func main() {
-	mode := flag.String("mode", "record", "cases|record")
+	mode := flag.String("mode", "record", "cases|record|recordbig")
+	nblob := flag.Int("nblob", 12, "blob-fee rounds (mode recordbig)")
 	in := flag.String("in", "", "cases json (mode cases)")
 	trace := flag.String("trace", "trace.ndjson", "output trace (mode record)")
 	out := flag.String("out", "summary.json", "summary output")
@@ -813,6 +1010,8 @@ func main() {
 		runCases(*in, seed, sum)
 	case "record":
 		runRecord(*trace, seed, *n, sum)
+	case "recordbig":
+		runRecordBig(*trace, seed, *n, *nblob, sum)
 	default:
 		tl.Fatal("bad mode")
 	}
